@@ -23,6 +23,8 @@ import (
 	"google.golang.org/protobuf/proto"
 )
 
+var _ = rewriteGoStmts + rewriteUnmodelled
+
 func prototextish(m proto.Message) string {
 	if m == nil {
 		return ""
